@@ -993,8 +993,13 @@ func (v Value) MarshalJSON() ([]byte, error) {
 	case valueUndefined, valueNull:
 		return []byte("null"), nil
 	case valueNumber:
-		if f, ok := v.value.(float64); ok && (math.IsNaN(f) || math.IsInf(f, 0)) {
-			return []byte("null"), nil
+		if f, ok := v.value.(float64); ok {
+			if math.IsNaN(f) || math.IsInf(f, 0) {
+				return []byte("null"), nil
+			}
+			if f == 0 {
+				return []byte("0"), nil
+			}
 		}
 		return json.Marshal(v.value)
 	case valueBoolean:
